@@ -25,29 +25,47 @@ let run_t line =
        let bits = ref (Some (Array.to_list disk)) in
        let active = ref false and opened = ref true and checked = ref true in
        let completed = ref [] and now = ref 0 in
-       let saved = ref None in
+       let saved = ref None in            (* files + bitfield of the last save that wrote them *)
+       let saved_unc = ref [] in          (* uncertain list of the last save (erased and rewritten each time) *)
+       let saved_cl = ref (-1) in
+       let any_save = ref false in
        let all_set () = match !bits with Some b -> List.for_all (fun x -> x) b | None -> false in
+       let complete which =
+         if !active then (match !bits with
+             | Some b ->
+               let b' = List.mapi (fun i v ->
+                   if (not v) && which i then begin
+                     completed := hash_succeeded !completed (z_of_int !now) (nat_of_int i);
+                     disk.(i) <- true; true end else v) b in
+               bits := Some b'
+             | None -> ()) in
+       let starts_with s p = String.length s >= String.length p && String.sub s 0 (String.length p) = p in
+       let after s p = String.sub s (String.length p) (String.length s - String.length p) in
        List.iter (fun o ->
            if o = "start" then (if !opened && !checked then active := true)
            else if o = "stop" then active := false
-           else if o = "dl" then begin
-             if !active then (match !bits with
-                 | Some b ->
-                   List.iteri (fun i v -> if not v then begin
-                       completed := hash_succeeded !completed (z_of_int !now) (nat_of_int i);
-                       disk.(i) <- true end) b;
-                   bits := Some (List.map (fun _ -> true) b)
-                 | None -> ())
-           end
-           else if String.length o > 3 && String.sub o 0 3 = "adv" then now := !now + int_of_string (String.sub o 3 (String.length o - 3))
+           else if o = "dl" then complete (fun _ -> true)
+           else if starts_with o "dl=" then (let l = ilist (after o "dl=") in complete (fun i -> List.mem i l))
+           else if starts_with o "dlhold=" then (let l = ilist (after o "dlhold=") in complete (fun i -> List.mem i l))
+           else if o = "drop" then ()
+           else if starts_with o "adv" then now := !now + int_of_string (after o "adv")
            else if o = "close" then (active := false; opened := false; checked := false; bits := None)
            else if o = "reopen" then (if not !opened then (opened := true; checked := true; bits := Some (Array.to_list disk)))
+           else if o = "openonly" then (if not !opened then (opened := true; checked := false; bits := None))
+           else if o = "finishcheck" then (if !opened && not !checked then (checked := true; bits := Some (Array.to_list disk)))
            else if o = "save" then begin
-             if !opened && !checked then
-               let kinds = List.map (fun _ -> saved_mtime (Some (n_of_int 0, z_of_int 500)) true (all_set ()) !active) lens in
-               let unc = List.sort_uniq compare (List.map int_of_nat (uncertain_saved !completed (z_of_int !now))) in
-               saved := Some (kinds, (match !bits with Some b -> b | None -> []), unc)
+             if !opened then begin
+               any_save := true;
+               if !checked then begin
+                 let kinds = List.map (fun _ -> saved_mtime (Some (n_of_int 0, z_of_int 500)) true (all_set ()) !active) lens in
+                 saved := Some (kinds, (match !bits with Some b -> b | None -> []))
+               end;
+               saved_unc := List.sort_uniq compare (List.map int_of_nat (uncertain_saved !completed (z_of_int !now)));
+               saved_cl := List.length !completed
+             end
            end) (split_ws ops);
+       let cls = if !any_save then string_of_int !saved_cl else "-" in
+       let uncs = if !saved_unc = [] then "none" else String.concat "," (List.map string_of_int !saved_unc) in
        (* lifetime 2 *)
        let offs = ref 0 in
        let finfo = List.mapi (fun k l ->
@@ -71,8 +89,9 @@ let run_t line =
         | None ->
           let r = { r_map = true; r_files = None; r_bits = BMissing; r_unc = None; r_unc_ts = None } in
           let (s, _) = load (nat_of_int np) (z_of_int 10) (List.map fst finfo) s0 r in
-          Printf.sprintf "saved=- sbf=- unc=none load_ranges=%s bits=%s" (bools_str s.l_ranges) (bools_str (check s valid))
-        | Some (kinds, b, unc) ->
+          Printf.sprintf "saved=- sbf=- unc=%s cl=%s load_ranges=%s bits=%s" uncs cls (bools_str s.l_ranges) (bools_str (check s valid))
+        | Some (kinds, b) ->
+          let unc = !saved_unc in
           let allset = List.for_all (fun x -> x) b and allunset = List.for_all (fun x -> not x) b in
           let nset = List.length (List.filter (fun x -> x) b) in
           let bytes = List.init ((np + 7) / 8) (fun j ->
@@ -88,9 +107,8 @@ let run_t line =
           let r = { r_map = true; r_files = Some (List.map (fun z -> FMap (MVal z)) kinds); r_bits = rb;
                     r_unc = (if unc = [] then None else Some uncb); r_unc_ts = (if unc = [] then None else Some (z_of_int 0)) } in
           let (s, _) = load (nat_of_int np) (z_of_int 10) (List.map fst finfo) s0 r in
-          Printf.sprintf "saved=%s sbf=%s unc=%s load_ranges=%s bits=%s"
-            (String.concat "" (List.map kind_char kinds)) sbf
-            (if unc = [] then "none" else String.concat "," (List.map string_of_int unc))
+          Printf.sprintf "saved=%s sbf=%s unc=%s cl=%s load_ranges=%s bits=%s"
+            (String.concat "" (List.map kind_char kinds)) sbf uncs cls
             (bools_str s.l_ranges) (bools_str (check s valid)))
      | _ -> "BADCASE")
   | _ -> "BADCASE"
